@@ -6,5 +6,5 @@ CONSTANTS
   Seed = @SEED@
   Fams = @FAMS@
   Emit = @EMIT@
-INVARIANTS TablesOK ImpulseAlways InversionLemma EmitCases
+INVARIANTS TablesOK ImpulseAlways InversionLemma CombOK EmitCases
 CHECK_DEADLOCK FALSE
